@@ -29,5 +29,5 @@ TNext == l <= Len(Rec) /\ l' = l + 1 /\ (TReset \/ TPush \/ TCursor \/ TClone \/
 TInit == QInit /\ l = 1
 TSpec == TInit /\ [][TNext]_tvars
 Accepted == IF TLCGet("stats").diameter - 1 = Len(Rec) THEN TRUE
-            ELSE PrintT(<<"REJECTED", TLCGet("stats").diameter, Rec[TLCGet("stats").diameter]>>) /\ FALSE
+            ELSE Print(<<"REJECTED", TLCGet("stats").diameter, Rec[TLCGet("stats").diameter]>>, FALSE)
 =============================================================================
